@@ -196,13 +196,12 @@ func init() {
 		// worker literal
 		d := o.Fn("(*am/dispatch.Dispatcher).run")
 		var worker *ssa.Function
-		var workerGo *ssa.Go
-		for _, in := range AllInstrs(d) {
-			// the ingestion goroutine: a literal or a method started with go
-			if g, ok := in.(*ssa.Go); ok {
-				if f := g.Call.StaticCallee(); f != nil && len(f.Blocks) > 0 && len(e.Calls(f, "(*am/dispatch.Dispatcher).routeAlert")) > 0 {
-					worker, workerGo = f, g
-				}
+		var workerGo *GoSite
+		for _, gs := range e.GoSites(d) {
+			// the ingestion goroutine: a literal or a method, started with go or WaitGroup.Go
+			gs := gs
+			if f := gs.Fn; f != nil && len(f.Blocks) > 0 && len(e.Calls(f, "(*am/dispatch.Dispatcher).routeAlert")) > 0 {
+				worker, workerGo = f, &gs
 			}
 		}
 		o.RequireFn(worker != nil, "worker", "no ingestion worker routes received alerts", d)
@@ -221,8 +220,8 @@ func init() {
 				src := e.X(worker, st.Chan)
 				if p, isP := st.Chan.(*ssa.Parameter); isP && workerGo != nil {
 					for i, q := range worker.Params {
-						if q == p && i < len(workerGo.Call.Args) {
-							src = e.X(d, workerGo.Call.Args[i])
+						if q == p && i < len(workerGo.Args) {
+							src = e.X(d, workerGo.Args[i])
 						}
 					}
 				}
